@@ -18,6 +18,20 @@ def Err.code : Err → Nat
   | .groupsLt2 => 5 | .affinitySize => 6 | .verticesLt2 => 7 | .uSize => 8
   | .realizationsLt1 => 9 | .iterationsLt1 => 10 | .convergencesLt1 => 11
 
+/-- the text with which the `std::runtime_error` of each check begins (main.hpp; tensor.hpp for the last) -/
+def Err.message : Err → String
+  | .noEdges => "[multitensor] Number of edges should be at least 1, intead got "
+  | .endsMismatch => "[multitensor] Inconsitent edges: "
+  | .weightsNotMultiple => "[multitensor] Number of weights should be a multiple of the number of edges, intead got "
+  | .noLayers => "[multitensor] Number of layers should be at least 1, intead got "
+  | .groupsLt2 => "[multitensor] Number of groups should be at least 2, intead got "
+  | .affinitySize => "[multitensor] W size should have the form (k x k x nof_layers) with k = "
+  | .verticesLt2 => "[multitensor] Number of vertices should be at least 2, intead got "
+  | .uSize => "[multitensor] U size should have the form (k x nof_vertices) with k = "
+  | .realizationsLt1 => "[multitensor] Number of realizations should be at least 1, intead got "
+  | .iterationsLt1 => "[multitensor] Maximum number of iterations should be at least 1, intead got "
+  | .convergencesLt1 => "[multitensor] Number of convergences should be at least 1, intead got "
+
 /-- the sizes the validation looks at -/
 structure Shapes where
   assort : Bool
